@@ -318,6 +318,13 @@ func Robust(a Args) error {
 			odd := rawAVP(code, 0xC0, 4242, 12+7, []byte{1, 2, 3, 4, 5, 6, 7}, true)
 			id++
 			runRobust(id, msgBytes(append(good, odd...), abs.VCmd, abs.VApp, 0x80), "typed-length", vp, out, slow)
+			// the V flag with Vendor-Id 0 and no payload at all (AVP length 12), as the last AVP of the message
+			// and as the last member of a group
+			vz := rawAVP(code, 0xC0, 0, 12, nil, true)
+			id++
+			runRobust(id, msgBytes(append(append([]byte{}, good...), vz...), abs.VCmd, abs.VApp, 0x80), "typed-length", vp, out, slow)
+			id++
+			runRobust(id, msgBytes(rawAVP(9018, 0x40, 0, 8+len(good)+len(vz), append(append([]byte{}, good...), vz...), true), abs.VCmd, abs.VApp, 0x80), "typed-length", vp, out, slow)
 		}
 	}
 	if a.Extra["one"] != "" { // a single heavy case, run in a child process by the driver
